@@ -4667,7 +4667,7 @@ class ParseCtx:
                 raise IllegalParseTree("Use of enumeration constant for non-enumeration type output (perhaps you meant to use []?)", expr)
 
             if expr.children[0].value not in into_storage.enum_values:
-                raise UndefinedReferenceError("enumeration constant", expr)
+                raise UndefinedReferenceError("enumeration constant", expr.children[0])
             
             val = LiteralIntegerExpr(expr.children[0].value, OutputStorageType.ENUM, model_ref=into_storage)
             ProgramData.imbue(val, DTAG.SOURCE_LINE, expr.children[0].line)
